@@ -72,6 +72,9 @@ void frgv_access(void *a, size_t n)
 		__CPROVER_assert(!frgv_hdr_poisoned && OFF(a) - OFF(frgv_hdr) + n <= frgv_hdr_unp, "C03: the pool reads or writes a poisoned frame header");
 	if (frgv_blk && __CPROVER_same_object(a, frgv_blk) && OFF(a) >= OFF(frgv_blk) && OFF(a) < OFF(frgv_blk) + frgv_blk_cap)
 		__CPROVER_assert(OFF(a) - OFF(frgv_blk) + n <= frgv_blk_unp, "C03: the pool reads or writes a poisoned byte of a block");
+	/* the bucket's own fields (head slab, partial tree) next to the tracked bucket mutex, which is the first member of the bucket */
+	if (frgv_guard && __CPROVER_same_object(a, frgv_guard) && OFF(a) >= OFF(frgv_guard) + sizeof(struct frgv_vmutex) && OFF(a) < OFF(frgv_guard) + sizeof(struct pa_bucket))
+		__CPROVER_assert(frgv_guard->held, "C05: head slab / partial tree of a bucket accessed without its bucket mutex");
 	if (frgv_guarded && __CPROVER_same_object(a, frgv_guarded)) {
 		size_t off = OFF(a) - OFF(frgv_guarded);
 		if (off >= frgv_guarded_lo && off < frgv_guarded_hi)
